@@ -58,6 +58,10 @@ EXTRA.update({
  "C08-r11gam1": ["C07", "C08"], "C10-r11gam2": ["C09", "C04", "C10"], "C14-r11gbm1": ["C14", "C02"], "C11-r11gbm2": ["C11"], "C13-r11gcm1": ["C13"], "C16-r11gcm2": ["C16", "C13"],
  "C03-r11gdm1": ["C03", "C04"], "C17-r11gdm2": ["C17"], "C01-r11gem1": ["C01", "C05"], "C02-r11gem2": ["C02", "C05"], "C07-r11gfm1": ["C07"], "C09-r11gfm2": ["C09"],
 })
+EXTRA.update({
+ "C07-r12gam1": ["C07"], "C04-r12gam2": ["C04"], "C08-r12gbm1": ["C08"], "C08-r12gbm2": ["C08"], "C03-r12gcm1": ["C03", "C04"], "C09-r12gcm2": ["C09", "C04", "C03"],
+ "C13-r12gdm1": ["C13", "C16"], "C16-r12gdm2": ["C16"], "C14-r12gem1": ["C14"], "C17-r12gem2": ["C17", "C04"], "C15-r12gfm1": ["C15", "C05"], "C01-r12gfm2": ["C05", "C01"],
+})
 PREFIX_PROP = {"d8b687c": ["C06"], "da7613f": ["C16"], "64a92d9": ["C02"], "2c87331": ["C13", "C02", "C12"], "06fc22c": ["C05", "C11"],
                "85dc330": ["C05", "C11"], "4c427cc": ["C13"], "a8065bf": ["C13"], "a4e97cf": ["C11"], "2aa0389": ["C04"],
                "9db7846": ["C17"], "23f20cf": ["C17"], "b18464c": ["C07"], "d06cb78": ["C10"], "796c1d9": ["C01", "C11"], "e184993": ["C10"]}
